@@ -6,47 +6,69 @@
 mod verif_c06 {
     use super::verif_vm::*;
     use super::*;
-    use crate::memory::verif_mem::leak_gc;
+    use crate::memory::verif_mem::Placed;
     use crate::verif_stubs::*;
 
     fn num(v: Value, want: f64) -> bool {
         matches!(v, Value::Number(x) if x.to_bits() == want.to_bits())
     }
 
-    struct World {
-        vm: Vm,
+    pub(super) struct World {
+        pub(super) vm: Vm,
         fiber: Gc<RefCell<ObjFiber>>,
-        chunk: Gc<Chunk>,
+        pub(super) chunk: Gc<Chunk>,
+    }
+
+    /// Typed storage for the static objects of the scenario (see verif_mem::Placed); lives in a local of
+    /// the proof function and is not moved after `world` has run.
+    pub(super) struct Store {
+        name: Option<Placed<ObjString>>,
+        inner_chunk: Option<Placed<Chunk>>,
+        inner_fn: Option<Placed<ObjFunction>>,
+        chunk: Option<Placed<Chunk>>,
+        function: Option<Placed<ObjFunction>>,
+        closure: Option<Placed<ObjClosure>>,
+        fiber: Option<Placed<RefCell<ObjFiber>>>,
+    }
+    pub(super) fn store() -> Store {
+        Store { name: None, inner_chunk: None, inner_fn: None, chunk: None, function: None, closure: None, fiber: None }
     }
 
     /// One running fiber whose frame has `nlocals` number locals above the closure slot. The chunk's
     /// constant 0 is a function with two captured variables; `code` is what the Closure instruction's
     /// operands look like: [const_lo, const_hi, is_local, index, is_local, index] twice, followed by
     /// single-byte operand cells used by the Get/SetUpvalue steps.
-    fn world(vals: &[f64], cap: [(u8, u8); 4]) -> World {
-        let name = leak_gc(ObjString::new(Gc::dangling(), "f", 1));
-        let inner_chunk = leak_gc(Chunk {
+    pub(super) fn world(st: &mut Store, vals: &[f64], cap: [(u8, u8); 4]) -> World {
+        st.name = Some(Placed::new(ObjString::new(Gc::dangling(), "f", 1)));
+        let name = st.name.as_mut().unwrap().gc();
+        st.inner_chunk = Some(Placed::new(Chunk {
             code: vec![0u8, 0u8],
             lines: vec![1, 1],
             constant_map: HashMap::with_hasher(random_state_stub()),
             constants: Vec::new(),
-        });
-        let inner_fn = leak_gc(ObjFunction::new(name, 1, 2, inner_chunk, name));
+        }));
+        let inner_chunk = st.inner_chunk.as_mut().unwrap().gc();
+        st.inner_fn = Some(Placed::new(ObjFunction::new(name, 1, 2, inner_chunk, name)));
+        let inner_fn = st.inner_fn.as_mut().unwrap().gc();
         let idx = (0u16).to_ne_bytes();
         let code = vec![
             idx[0], idx[1], cap[0].0, cap[0].1, cap[1].0, cap[1].1, // first Closure's operands
             idx[0], idx[1], cap[2].0, cap[2].1, cap[3].0, cap[3].1, // second Closure's operands
             0, 1, 0, 1, // upvalue indices for Get/SetUpvalue steps
         ];
-        let chunk = leak_gc(Chunk {
+        st.chunk = Some(Placed::new(Chunk {
             lines: vec![0; code.len()],
             code,
             constant_map: HashMap::with_hasher(random_state_stub()),
             constants: vec![Value::ObjFunction(inner_fn)],
-        });
-        let function = leak_gc(ObjFunction::new(name, 1, 0, chunk, name));
-        let closure = leak_gc(ObjClosure::new(function, Vec::new(), Gc::dangling()));
-        let fiber = leak_gc(RefCell::new(ObjFiber::new(Gc::dangling(), closure)));
+        }));
+        let chunk = st.chunk.as_mut().unwrap().gc();
+        st.function = Some(Placed::new(ObjFunction::new(name, 1, 0, chunk, name)));
+        let function = st.function.as_mut().unwrap().gc();
+        st.closure = Some(Placed::new(ObjClosure::new(function, Vec::new(), Gc::dangling())));
+        let closure = st.closure.as_mut().unwrap().gc();
+        st.fiber = Some(Placed::new(RefCell::new(ObjFiber::new(Gc::dangling(), closure))));
+        let fiber = st.fiber.as_mut().unwrap().gc();
         let mut vm = bare_vm();
         vm.fiber = Some(fiber.as_root());
         vm.unsafe_fiber = (*fiber).as_ptr();
@@ -76,7 +98,7 @@ mod verif_c06 {
             let b = u.borrow();
             let mut this: isize = -1;
             let mut k = 0;
-            while k < 8 {
+            while k < 4 {
                 let addr = unsafe { base.offset(k as isize) };
                 if b.is_open_with_pred(|p| p == addr) {
                     this = k as isize;
@@ -89,7 +111,7 @@ mod verif_c06 {
             prev_idx = this;
             cur = b.next;
             n += 1;
-            if n > 4 {
+            if n > 3 {
                 return false;
             }
         }
@@ -104,15 +126,17 @@ mod verif_c06 {
     ///    the local and by the other closure (while the frame is live);
     ///  * the fiber's open-upvalue list stays strictly ordered and duplicate-free.
     #[kani::proof]
-    #[kani::unwind(9)]
+    #[kani::unwind(5)]
     #[kani::stub(std::collections::hash_map::RandomState::new, random_state_stub)]
     #[kani::stub(std::fmt::format, fmt_stub)]
+    #[kani::stub(crate::memory::Heap::collect_if_required, crate::memory::verif_mem::collect_if_required_stub)]
     fn c06_closures_share_captured_locals() {
         let vals: [f64; 3] = kani::any();
         let s: [u8; 4] = kani::any();
         kani::assume(s[0] >= 1 && s[0] <= 3 && s[1] >= 1 && s[1] <= 3 && s[2] >= 1 && s[2] <= 3 && s[3] >= 1 && s[3] <= 3);
         kani::assume(s[0] != s[1] && s[2] != s[3]); // the compiler deduplicates captures within one function
-        let mut w = world(&vals, [(1, s[0]), (1, s[1]), (1, s[2]), (1, s[3])]);
+        let mut st = store();
+        let mut w = world(&mut st, &vals, [(1, s[0]), (1, s[1]), (1, s[2]), (1, s[3])]);
         let code = w.chunk.code.as_ptr();
         w.vm.ip = code;
         w.vm.closure_impl();
@@ -171,13 +195,15 @@ mod verif_c06 {
     /// through one is seen by the other), the stack slot it lived in is no longer affected, and upvalues of
     /// locals BELOW the closed one stay open and keep tracking their slots.
     #[kani::proof]
-    #[kani::unwind(9)]
+    #[kani::unwind(5)]
     #[kani::stub(std::collections::hash_map::RandomState::new, random_state_stub)]
     #[kani::stub(std::fmt::format, fmt_stub)]
+    #[kani::stub(crate::memory::Heap::collect_if_required, crate::memory::verif_mem::collect_if_required_stub)]
     fn c06_closed_variables_keep_value_and_sharing() {
         let vals: [f64; 3] = kani::any();
         // c1 captures locals (3, 1); c2 captures (1, 3) - both share both variables, opposite order
-        let mut w = world(&vals, [(1, 3), (1, 1), (1, 1), (1, 3)]);
+        let mut st = store();
+        let mut w = world(&mut st, &vals, [(1, 3), (1, 1), (1, 1), (1, 3)]);
         let code = w.chunk.code.as_ptr();
         w.vm.ip = code;
         w.vm.closure_impl();
@@ -223,16 +249,18 @@ mod verif_c06 {
     /// A closure created inside a closure captures through the enclosing closure's upvalue
     /// (is_local = 0): it gets the very same upvalue object.
     #[kani::proof]
-    #[kani::unwind(9)]
+    #[kani::unwind(5)]
     #[kani::stub(std::collections::hash_map::RandomState::new, random_state_stub)]
     #[kani::stub(std::fmt::format, fmt_stub)]
+    #[kani::stub(crate::memory::Heap::collect_if_required, crate::memory::verif_mem::collect_if_required_stub)]
     fn c06_nested_capture_reuses_enclosing_upvalue() {
         let vals: [f64; 3] = kani::any();
         let k: u8 = kani::any();
         kani::assume(k < 2);
         // first closure captures locals 1 and 2; second "nested" one is created while the first is the
         // running closure and captures upvalue k and upvalue 1-k of its parent
-        let mut w = world(&vals, [(1, 1), (1, 2), (0, k), (0, 1 - k)]);
+        let mut st = store();
+        let mut w = world(&mut st, &vals, [(1, 1), (1, 2), (0, k), (0, 1 - k)]);
         let code = w.chunk.code.as_ptr();
         w.vm.ip = code;
         w.vm.closure_impl();
@@ -262,12 +290,14 @@ mod verif_c06 {
 
     /// Twin: must FAIL.
     #[kani::proof]
-    #[kani::unwind(9)]
+    #[kani::unwind(5)]
     #[kani::stub(std::collections::hash_map::RandomState::new, random_state_stub)]
     #[kani::stub(std::fmt::format, fmt_stub)]
+    #[kani::stub(crate::memory::Heap::collect_if_required, crate::memory::verif_mem::collect_if_required_stub)]
     fn c06_twin_must_fail() {
         let vals: [f64; 3] = kani::any();
-        let mut w = world(&vals, [(1, 3), (1, 1), (1, 1), (1, 3)]);
+        let mut st = store();
+        let mut w = world(&mut st, &vals, [(1, 3), (1, 1), (1, 1), (1, 3)]);
         w.vm.ip = w.chunk.code.as_ptr();
         w.vm.closure_impl();
         assert!(false, "twin");
